@@ -158,8 +158,8 @@ def handle : Sexp → Option Sexp
       let G ← decTT g
       let ps ← allSome decProg progs
       match fromSamples (toUnit G) ps with
-      | .error .key => pure (.list [.atom "error", .str "KeyError"])
-      | .error .index => pure (.list [.atom "error", .str "IndexError"])
+      | .error .key => pure (.list [.atom "exn", .str "KeyError"])
+      | .error .index => pure (.list [.atom "exn", .str "IndexError"])
       | .ok t => pure (.list [.atom "ok", encTags (tagsOfUnit t)])
   -- CFG.programs() on the implementation's table (wire format of C01)
   | .list [.atom "c04.programs", g] => do
